@@ -171,5 +171,31 @@ void prop(Tape &t, Ctx &c) {
 }
 
 } // namespace
+#ifdef C12_HUGE
+// Messages of 2^29 bytes and more in one update call (the bit counters of the digests carry out of 32 bits at 2^29 bytes).  The message is a
+// private anonymous mapping of zero pages, so no memory is committed.  Enumerated: case index = api * 4 + variant.
+#include <sys/mman.h>
+void prop_huge(Tape &t, Ctx &c) {
+    uint64_t idx = t.u64(); if (idx >= NAPI * 4) throw Discard{};
+    const Api &a = APIS[idx / 4]; unsigned v = (unsigned) (idx % 4);
+    static const size_t LEN[4] = { (1ull << 29), (1ull << 29) + 77, (1ull << 29) - 64, (1ull << 29) + 64 };
+    size_t len = LEN[v]; size_t lead = (v == 3) ? 3 : 0;   // variant 3: three buffered bytes first, then the huge call
+    static unsigned char *zero = nullptr; static const size_t MAPLEN = (1ull << 29) + 4096;
+    if (!zero) { zero = (unsigned char *) mmap(nullptr, MAPLEN, PROT_READ, MAP_PRIVATE | MAP_ANONYMOUS | MAP_NORESERVE, -1, 0); if (zero == MAP_FAILED) { zero = nullptr; VF_FAIL("harness-mmap-failed", "cannot map %zu bytes", MAPLEN); } }
+    std::string desc = fmt("%s single update of %zu bytes%s", a.name, len, lead ? " after 3 buffered bytes" : "");
+    c.sample(desc); if (c.verbose) fprintf(stderr, "case: %s\n", desc.c_str());
+    RawCtx ctx(a.ctxsz, 0x5a);
+    VF_CHECK(a.init(ctx.p) >= 0, "digest-init-failed", "%s", desc.c_str());
+    if (lead) a.update(ctx.p, zero, (uint32_t) lead);
+    a.update(ctx.p, zero, (uint32_t) len);
+    unsigned char got[64], want[64]; memset(got, 0, sizeof got); a.final(ctx.p, got);
+    C12_ORACLE_OK(c, o_digest(a.oalg, zero, lead + len, want));
+    VF_CHECK(memcmp(got, want, a.hlen) == 0, fmt("digest-mismatch:%s:huge-update", a.name).c_str(), "%s: got %s want %s", desc.c_str(), hex(got, a.hlen).c_str(), hex(want, a.hlen).c_str());
+    c.nontrivial(fmt("%s|%u", a.name, v));
+}
+VF_TARGET("C12.digest_huge", prop_huge, 16, 300)
+namespace vf { uint64_t vf_enum_total() { return NAPI * 4; } }
+#else
 VF_TARGET("C12.digest", prop, 192, 20)
+#endif
 namespace vf { void vf_global_init(int, char **) { if (psCryptoOpen(PSCRYPTO_CONFIG) != PS_SUCCESS) { fprintf(stderr, "psCryptoOpen failed\n"); _exit(2); } } }
